@@ -255,7 +255,12 @@ func TestC06(t *testing.T) {
 	rec := harness.Get("C06")
 	if path := replayPath(); path != "" {
 		var c caseC06
-		must(harness.LoadReplay(path, &c))
+		if data, ok := fuzzCrasherInput(path); ok {
+			// a crasher saved by the native fuzz engine
+			c = caseC06{Family: "native-fuzz", Req: workReq{Src: data, Exec: !strings.Contains(string(data), "*"), Chunks: []int{7, 0, 1}}}
+		} else {
+			must(harness.LoadReplay(path, &c))
+		}
 		if viol := checkC06(c); viol != "" {
 			rec.Fail(t, c, "%s", viol)
 		}
